@@ -200,8 +200,8 @@ func (s *shard[K, V]) Contains(key K) bool {
 	s.l.RLock()
 	defer s.l.RUnlock()
 
-	_, ok := s.m[key]
-	return ok
+	v, ok := s.m[key]
+	return ok && v.Wait == nil // a key that is only being waited for has not been added
 }
 
 // Range calls f for each key-value pair in this shard.
